@@ -10,8 +10,8 @@ CONSTANTS CfgName,            \* which request alphabet (Payments!Config)
 
 VARIABLES s, g, last
 
-K   == [fee |-> Fee, pct |-> Pct, revokeValidates |-> RevokeValidates]
 Cfg == Config(CfgName)
+K   == [fee |-> Fee, pct |-> Pct, revokeValidates |-> RevokeValidates, vlim |-> Cfg.vlim]
 
 Init == /\ s = InitState(Cfg.chans, Cfg.hashes)
         /\ g = InitGhost(Cfg.chans, Cfg.hashes)
@@ -33,6 +33,8 @@ C06b == Inv_C06b(g)
 TypeOK == /\ \A h \in Cfg.hashes : s.inv[h].amt >= 0 => s.pay[h].has
           /\ \A h \in Cfg.hashes : ~s.pay[h].has => (Tot(s.pay[h].in) = 0 /\ Tot(s.pay[h].out) = 0 /\ ~s.pay[h].pre)
           /\ \A h \in Cfg.hashes : s.ppre[h] \in BOOLEAN
+          \* the velocity window never holds more than the limit; memory and store agree on it
+          /\ s.vel >= 0 /\ s.pvel = s.vel /\ (K.vlim > 0 => s.vel <= K.vlim) /\ (K.vlim = 0 => s.vel = 0)
 
 \* C10 at design level: a refused request leaves the abstract state unchanged
 Frame == [][ (last'.ok = FALSE) => (s' = s) ]_<<s, g, last>>
